@@ -71,7 +71,7 @@ let () = iter_lines (fun line ->
              t_x = z_of_int (g i 9); t_y = z_of_int (g i 11); t_w = z_of_int (g i 5); t_h = z_of_int (g i 7) }) in
          (* tj3TransformBufSize of every request first, then the transform *)
          let bs = String.concat " " (List.map (fun t -> string_of_int (int_of_z (tj_transform_buf_size im t))) ts) in
-         match tj_transform im ts with
+         match tj_transform2 im ts with
          | Inl e -> print_endline ("bs " ^ bs ^ " ; err " ^ err_name e)
          | Inr outs ->
            Buffer.add_string b ("bs " ^ bs ^ " ; ok");
@@ -85,7 +85,7 @@ let () = iter_lines (fun line ->
                                        cr_y = z_of_int (g 0 11); cr_yset = oset_of (g 0 12) }
                               else None);
                    xo_slow = false } in
-         match transform im o with
+         match transform2 im o with
          | Inl e -> print_endline ("err " ^ err_name e)
          | Inr out ->
            Buffer.add_string b "ok | "; dump_image b out;
